@@ -33,7 +33,7 @@ impl<'a> IntoIterator for GetAll<'a> { type Item = &'a HeaderValue; type IntoIte
 impl<'a> IntoIterator for &GetAll<'a> { type Item = &'a HeaderValue; type IntoIter = std::slice::Iter<'a, HeaderValue>; fn into_iter(self) -> Self::IntoIter { self.0.iter() } }
 pub struct Uri(pub Option<String>);
 impl Uri { pub fn query(&self) -> Option<&str> { self.0.as_deref() } }
-pub mod http { pub mod request { pub struct Parts { pub headers: super::super::HeaderMap, pub uri: super::super::Uri } } pub use super::{HeaderMap, Uri}; }
+pub mod http { pub mod request { pub struct Parts { pub headers: super::super::HeaderMap, pub uri: super::super::Uri } } pub use super::{HeaderMap, HeaderName, HeaderValue, Uri}; pub mod header { pub use super::super::{HeaderMap, HeaderName, HeaderValue}; } }
 pub mod url { pub mod form_urlencoded {
     use std::borrow::Cow;
     fn dec(s: &[u8]) -> String {
